@@ -81,6 +81,15 @@ def skeleton(eng, name, P):
         return [[('IF', q_hole(eng, '0', ['is_file', 'is_dir', 'exists', 'list_dir'], roles),
                   [('BF', t, bf_opts(eng, '0', ['ok', 'raise_after']), [])],
                   [q_hole(eng, '1', kinds, roles)])]]
+    if name == 'A9':
+        # a build_file function that asks about its own output directory and then reads an input; afterwards the root asks
+        # about the directory (the interesting histories change the input, so the replay of the record stops half-way)
+        import posixpath
+        t = pick(eng, 't', targets)
+        par = posixpath.dirname(t)
+        return [[('BF', t, bf_opts(eng, '0', modes, catch=True),
+                  [q_hole(eng, '0', ['list_dir', 'is_dir', 'exists'], [par, P1]), q_hole(eng, 'r', ['read_m', 'read_h'], [IN])]),
+                 q_hole(eng, '1', kinds, [par, P1, t])]]
     if name == 'A8':
         # file <-> directory swap of an output position between builds
         first = eng.choose('first', 2)
